@@ -22,7 +22,7 @@ PENDING = "claimed in DESIGN.md; its check is still under construction in this s
 
 CHECKS = {
  "C12": dict(engine="sessionsim", section="5 C12", technique="deterministic simulation: seeded sessions with injected I/O errors, cancellations and allocation failures (uniformly drawn or aimed at functions holding in-flight state), retries and abandoned operations, line-level interleaving of two calculations; invariant monitor (completes / finite / real / T->0 / results available) on every observation",
-   text="Seeded exploration: swarm-randomised valid configurations (all 7 interpolators x admissible orders incl. orders at or above the number of volumes, 9 crystal systems, DT 0.5-500 K, first grid rows at 0.01-5 K, mixed shear keys) are executed by simulated clients inside one process, alone, next to another live calculator, interleaved with it line by line (baton-passing threads with seeded and aimed switch points), under working-directory perturbations and as the retry after injected faults (open/read errors, cancellation and MemoryError at a seeded or aimed cij line); a self-contained invariant monitor checks that the calculation completes and that every isothermal/adiabatic modulus, average and velocity is available, finite and real where the property demands it, and the T->0 clauses. Besides the random batch every run sweeps: one fault at every fault point (every open, every distinct source line) of a few seeded base scenarios, and one ping-pong switch at every source line of a few seeded two-client segments. Sampling, not proof; no reference implementation is involved.",
+   text="Seeded exploration: swarm-randomised valid configurations (all 7 interpolators x admissible orders incl. orders at or above the number of volumes, 9 crystal systems, DT 0.5-500 K, first grid rows at 1e-12 K to 5 K, mixed shear keys) are executed by simulated clients inside one process, alone, next to another live calculator, interleaved with it line by line (baton-passing threads with seeded and aimed switch points), under working-directory perturbations and as the retry after injected faults (open/read errors, cancellation and MemoryError at a seeded or aimed cij line); a self-contained invariant monitor checks that the calculation completes and that every isothermal/adiabatic modulus, average and velocity is available, finite and real where the property demands it, and the T->0 clauses. Besides the random batch every run sweeps: one fault at every fault point (every open, every distinct source line) of a few seeded base scenarios, and one ping-pong switch at every source line of a few seeded two-client segments. Sampling, not proof; no reference implementation is involved.",
    note="Trusts: the world generator's notion of a valid configuration (hand-written guards listed in DESIGN.md 5/C12); numpy.isfinite / eigvalsh for the preconditions; qha's heat-capacity field as the precondition for adiabatic values. Open known findings: hermite and akima interpolators."),
  "C14": dict(engine="sessionsim", section="5 C14", technique="deterministic simulation: seeded operation- and line-level interleavings of 1-3 clients, hash seeds, cwd perturbations and directory changes inside the history, simulated file timestamps, fault injection with retry or abandonment; differential against solo fresh-fork reference runs and against fresh-calculator singleton references, byte for byte",
    text="Seeded exploration of histories x interleavings x hash seeds x working-directory states x injected faults: every observation of every client in the session (bytes of each file written, digest of each array read, stdout of each command, exception type and message) must equal, byte for byte, the observation at the same program position of that client's solo run in a fresh fork with hash seed 0, clean directories and no faults; every read / single-entry write of the program must also equal the same read / write performed first on a fresh calculator in a pristine fork (O-order); a second calculator built from the same settings must agree with the first; plus read-twice / write-twice / re-fill idempotence and the frame condition. Histories contain directory changes, entries appearing in the working directory mid-way, dropped calculators, a simulated file clock that stands still, advances or steps back. Besides the random batch every run sweeps: one fault at every fault point (every open, every distinct source line) of a few seeded base scenarios, and one ping-pong switch at every source line of a few seeded two-client segments. Sampling, not proof.",
